@@ -66,7 +66,7 @@ def _leaf(rng, dom, var, kinds=("random", "grid"), n=None, target="interior"):
 
 
 def gen_algebra(rng, tier):
-    kind = str(rng.choice(["prod", "prod", "prod_dep", "prod_dep", "prod3", "sum", "append", "static", "data", "prod_ext"]))
+    kind = str(rng.choice(["prod", "prod", "prod_dep", "prod_dep", "prod3", "sum", "append", "static", "data", "prod_ext", "data_first"]))
     tdom = {"prim": "interval", "var": "t", "lo": float(rng.uniform(-1, 0)), "hi": float(rng.uniform(0.5, 2))}
     ydom = {"prim": "interval", "var": "y", "lo": 0.0, "hi": float(rng.uniform(0.5, 3))}
     rows = {}
@@ -93,6 +93,11 @@ def gen_algebra(rng, tier):
         spec = {"s": "prod", "a": a, "b": b}
         k = int(rng.choice([1, 2, 3]))
         rows = {"q": [[float(v)] for v in rng.permutation(5)[:k] + rng.uniform(0, 0.2, k)]}
+    elif kind == "data_first":
+        # a data sampler as FIRST factor receives the (changing) points of the second factor as parameters on every call
+        a = {"s": "data", "var": "y", "n": int(rng.choice([1, 3, 6])), "dom": ydom, "target": "interior"}
+        b = _leaf(rng, tdom, "t", kinds=("random", "random", "grid"), n=int(rng.choice([1, 2, 4])))
+        spec = {"s": "prod", "a": a, "b": b}
     elif kind == "sum":
         spec = {"s": "sum", "a": _leaf(rng, _xdom(rng), "x"), "b": _leaf(rng, _xdom(rng), "x", target="boundary")}
     elif kind == "append":
@@ -109,7 +114,8 @@ def gen_algebra(rng, tier):
     if not rows and rng.random() < 0.25 and kind in ("sum", "append", "prod"):
         k = int(rng.choice([1, 2, 3]))
         rows = {"q": [[float(v)] for v in rng.permutation(6)[:k] + rng.uniform(0, 0.2, k)]}
-    return {"wk": "algebra", "kind": kind, "sspec": spec, "rows": rows, "ncalls": int(rng.integers(1, 4)),
+    return {"wk": "algebra", "kind": kind, "sspec": spec, "rows": rows,
+            "ncalls": int(rng.integers(2, 4)) if kind == "data_first" else int(rng.integers(1, 4)),
             "seed": int(rng.integers(0, 2 ** 31))}
 
 
